@@ -191,6 +191,14 @@ class Check:
         samples = list(self.samples)
         for o in self.obligations[:6]:
             samples.append({'obligation': o['id'], 'status': o['status'], 'backend': o['backend']})
+        # the level registered in MANIFEST.json is the claim; it is kept only when this run supports it
+        try:
+            man = json.loads((ROOT / 'MANIFEST.json').read_text())
+            claimed = next((c['level_claimed']['category'] for c in man.get('checks', []) if c['property_id'] == self.pid), None)
+        except Exception:   # noqa
+            claimed = None
+        if claimed:
+            level = claimed
         if level == 'proof' and (len(P) == 0 or n_disc_P != len(P) or S or self.evaluations):
             # a proof-level claim must be carried by P obligations alone
             if len(P) == 0 or n_disc_P != len(P):
